@@ -206,6 +206,7 @@ def canonicalise(dotted: str, tree: ast.Module, reference: Optional[dict] = None
     if not refmod:
         return applied
     is_pkg = bool(getattr(tree, "_verif_is_pkg", False))
+    strip_local_annotations(tree)
     ni_ = canonical_imports(dotted, tree, refmod.get("<imports>", {}), is_pkg)
     mc_ = inline_module_constants(tree, set(refmod.get("<globals>", [])), set(import_table(dotted, tree, is_pkg)))
     pp_ = getattr(tree, "_verif_params", {})
@@ -1727,6 +1728,31 @@ class _FoldLiteralSeq(ast.NodeTransformer):
                 return ast.copy_location(ast.List(elts=elts, ctx=ast.Load()), node)
             return ast.copy_location(ast.Tuple(elts=elts, ctx=ast.Load()), node)
         return node
+
+
+def strip_local_annotations(tree: ast.AST) -> int:
+    """`x: T = v` inside a function -> `x = v` (annotations of local variables are never evaluated); a bare `x: T` declaration is dropped."""
+    n = 0
+    for f in ast.walk(tree):
+        if not isinstance(f, (ast.FunctionDef, ast.AsyncFunctionDef)):
+            continue
+        for owner in ast.walk(f):
+            for field in ("body", "orelse", "finalbody"):
+                block = getattr(owner, field, None)
+                if not isinstance(block, list):
+                    continue
+                for i, st in enumerate(list(block)):
+                    if isinstance(st, ast.AnnAssign) and isinstance(st.target, ast.Name) and st.simple:
+                        if st.value is not None:
+                            block[block.index(st)] = ast.copy_location(ast.Assign(targets=[ast.Name(id=st.target.id, ctx=ast.Store())], value=st.value), st)
+                        elif len(block) > 1:
+                            block.remove(st)
+                        else:
+                            block[block.index(st)] = ast.copy_location(ast.Pass(), st)
+                        n += 1
+    if n:
+        ast.fix_missing_locations(tree)
+    return n
 
 
 def split_walrus_and(fn: ast.FunctionDef) -> int:
